@@ -300,3 +300,33 @@ Definition failed_seeks_safe {A} (data : list A) (atr : list (entry A)) : Prop :
     e_out e = AFail /\ (e_pos' e = e_pos e \/ e_pos' e = lenN data) /\
     (e_pos' e = lenN data -> seek_free post ->
        delivered data post = [] /\ Forall (fun x => polls x = true -> eos x = true) post).
+
+(* ------------------------------------------------------------------ support for the correspondence check *)
+(* two observations agree: same constructor and payload; error variant and panic kind are soft *)
+Definition list_same {A} (eqb : A -> A -> bool) : list A -> list A -> bool :=
+  fix go a b := match a, b with
+                | [], [] => true
+                | x :: a', y :: b' => eqb x y && go a' b'
+                | _, _ => false
+                end.
+Definition out_same (a b : out) : bool :=
+  match a, b with
+  | OBytes x, OBytes y => list_same N.eqb x y
+  | OSamples x, OSamples y => list_same Z.eqb x y
+  | OChans x, OChans y => list_same (list_same Z.eqb) x y
+  | OItem None, OItem None => true
+  | OItem (Some x), OItem (Some y) => Z.eqb x y
+  | OUnit, OUnit => true
+  | OPos p, OPos q => N.eqb p q
+  | OErr _, OErr _ => true
+  | OPanic _, OPanic _ => true
+  | _, _ => false
+  end.
+(* the model's observations up to and including the first panic (the harness stops there) *)
+Fixpoint until_panic (l : list out) : list out :=
+  match l with
+  | [] => []
+  | OPanic k :: _ => [OPanic k]
+  | x :: r => x :: until_panic r
+  end.
+Definition agrees (model impl : list out) : bool := list_same out_same (until_panic model) impl.
